@@ -1,4 +1,4 @@
 From Coq Require Import List NArith.
-From Tink Require Import XBase Bytes Cmac Hmac Hkdf Prf.
+From Tink Require Import XBase Bytes Cmac Hmac Hkdf Prf HmacCode HkdfCode.
 Require Import ExtrOcamlBasic.
-Extraction "m.ml" xb_add xb_mul xb_div_eucl subtle_new prf_key_ok new_prf_set compute_primary compute_hkdf set_lookup primary_id prfs.
+Extraction "m.ml" xb_add xb_mul xb_div_eucl subtle_new prf_key_ok new_prf_set compute_primary compute_hkdf set_lookup primary_id prfs new_code rd_reads acc_init acc_write block_size digest_size.
